@@ -1,6 +1,7 @@
 package main
 
 import (
+	"go/token"
 	"go/ast"
 	"go/types"
 	"sort"
@@ -38,6 +39,109 @@ func runC18(p *Program, r *Report) {
 	ruleR188(p, r)
 	r.Rule("R18.7", "E4", 6, "migration covers every kind the v1 classifier produces: each keystore.Purpose* the default key-file classifier can assign has a case in ServerKeyStore.ImportKeyFileV1")
 	ruleR187(p, r)
+	r.Rule("R18.9", "E2", 3, "the shape of a v2 ring travels unchanged: exportASN1 copies Purpose, Current and one entry per key of the ring; importASN1 installs one re-encrypted key per bundled key and exactly the bundle's current marker (no recomputed or conditional marker: a ring whose current key was destroyed keeps pointing at it)")
+	ruleR189(p, r)
+}
+
+func ruleR189(p *Program, r *Report) {
+	imp := p.Func("keystore/v2/keystore/filesystem.(*KeyRing).importASN1")
+	exp := p.Func("keystore/v2/keystore/filesystem.(*KeyRing).exportASN1")
+	if imp == nil || imp.Blocks == nil || exp == nil || exp.Blocks == nil {
+		r.Anchor("R18.9", "KeyRing.importASN1 / exportASN1")
+		return
+	}
+	// a field store into a struct literal of the function, by field name
+	fieldStores := func(fn *ssa.Function, typeSuffix, field string) []*ssa.Store {
+		var out []*ssa.Store
+		for _, b := range fn.Blocks {
+			for _, in := range b.Instrs {
+				st, ok := in.(*ssa.Store)
+				if !ok {
+					continue
+				}
+				fa, ok := st.Addr.(*ssa.FieldAddr)
+				if !ok {
+					continue
+				}
+				pt, ok := fa.X.Type().Underlying().(*types.Pointer)
+				if !ok {
+					continue
+				}
+				stt, ok := pt.Elem().Underlying().(*types.Struct)
+				if !ok || !strings.HasSuffix(pt.Elem().String(), typeSuffix) {
+					continue
+				}
+				if stt.Field(fa.Field).Name() == field {
+					out = append(out, st)
+				}
+			}
+		}
+		return out
+	}
+	isFieldLoadOf := func(v ssa.Value, base ssa.Value, path ...string) bool {
+		// v == *(&(...(&base.path0).path1)...)
+		u, ok := v.(*ssa.UnOp)
+		if !ok || u.Op != token.MUL {
+			return false
+		}
+		cur := u.X
+		for i := len(path) - 1; i >= 0; i-- {
+			fa, ok := cur.(*ssa.FieldAddr)
+			if !ok {
+				return false
+			}
+			pt, ok := fa.X.Type().Underlying().(*types.Pointer)
+			if !ok {
+				return false
+			}
+			stt, ok := pt.Elem().Underlying().(*types.Struct)
+			if !ok || stt.Field(fa.Field).Name() != path[i] {
+				return false
+			}
+			cur = fa.X
+			if i > 0 {
+				// intermediate pointer fields are loaded
+				if l, ok := cur.(*ssa.UnOp); ok && l.Op == token.MUL {
+					cur = l.X
+				}
+			}
+		}
+		return cur == base
+	}
+	ringData := paramByName(imp, "ringData")
+	cur := fieldStores(imp, "filesystem.txSetKeys", "current")
+	okCur := len(cur) == 1 && ringData != nil && isFieldLoadOf(cur[0].Val, ringData, "Current")
+	pos := p.Pos(imp.Pos())
+	if len(cur) > 0 {
+		pos = p.Pos(cur[0].Pos())
+	}
+	r.Check(okCur, "R18.9", fnName(imp), "imported current marker is the bundle's", pos, "txSetKeys.current = ringData.Current", "the current marker installed by the import is not simply the bundle's marker (recomputed, conditional or dropped): the imported ring answers CurrentKey differently from the exported one")
+	// one key per bundled key
+	nk := fieldStores(imp, "filesystem.txSetKeys", "newKeys")
+	okKeys := false
+	if len(nk) == 1 {
+		if mk, ok := nk[0].Val.(*ssa.MakeSlice); ok {
+			if x, isLen := isLenCall(mk.Len); isLen && ringData != nil && isFieldLoadOf(x, ringData, "Keys") {
+				okKeys = true
+			}
+		}
+	}
+	r.Check(okKeys, "R18.9", fnName(imp), "one imported key per bundled key", pos, "newKeys = make([]Key, len(ringData.Keys))", "the imported key list is not sized by the bundle's key list: keys are dropped or invented on import")
+	// export: Current and Purpose copied from the ring
+	recv := exp.Params[0]
+	okExp := true
+	for _, f := range []string{"Current", "Purpose"} {
+		sts := fieldStores(exp, "asn1.KeyRing", f)
+		if len(sts) != 1 || !isFieldLoadOf(sts[0].Val, recv, "data", f) {
+			okExp = false
+		}
+	}
+	r.Check(okExp, "R18.9", fnName(exp), "exported marker and purpose are the ring's", p.Pos(exp.Pos()), "exported.Current = r.data.Current, exported.Purpose = r.data.Purpose", "the exported ring's current marker or purpose is not copied from the ring as it is")
+}
+
+func init() {
+	mut("C18", "import keeps the current marker only if it names a key that still has data", "keystore/v2/keystore/filesystem/export.go", "	r.pushTX(&txSetKeys{newKeys: newKeys, current: ringData.Current})", "	current := asn1.NoKey\n	for i := range newKeys {\n		if newKeys[i].Seqnum == ringData.Current && len(newKeys[i].Data) != 0 {\n			current = newKeys[i].Seqnum\n		}\n	}\n	r.pushTX(&txSetKeys{newKeys: newKeys, current: current})", "R18.9", "imported current marker")
+	mut("C18", "export resets the current marker", "keystore/v2/keystore/filesystem/export.go", "		Current: r.data.Current,", "		Current: asn1.NoKey,", "R18.9", "exported marker")
 }
 
 // invokeOrCall finds calls in fn by method/function name.
